@@ -414,14 +414,20 @@ theorem accOp_sound (c : Cfg) [Fact c.t.Prime] (ht : c.t < 2 ^ 64) (relin : Bool
 /-! ### unary operations -/
 
 theorem rescaleOp_sound (c : Cfg) [Fact c.t.Prime] (ht : c.t < 2 ^ 64) (hQ : ∀ q ∈ c.qs, (q : ZMod c.t) ≠ 0)
-    (o : Out) (a : Reg) (r : Reg) (ha : (a.scale : ZMod c.t) ≠ 0) (hsi : c.si = false)
+    (o : Out) (a : Reg) (r : Reg) (ha : (a.scale : ZMod c.t) ≠ 0)
     (h : rescaleOp c o a = .ok [r]) :
     msg c.t r = msg c.t a ∧ (r.scale : ZMod c.t) ≠ 0
-    ∧ (r.scale : ZMod c.t) = (a.scale : ZMod c.t) * ((c.qs.getD a.level 1 : Nat) : ZMod c.t)⁻¹
-    ∧ r.level + 1 = a.level ∧ r.degree = a.degree := by
+    ∧ (c.si = false → (r.scale : ZMod c.t) = (a.scale : ZMod c.t) * ((c.qs.getD a.level 1 : Nat) : ZMod c.t)⁻¹
+        ∧ r.level + 1 = a.level ∧ r.degree = a.degree)
+    ∧ (c.si = true → r = a) := by
   have hqi := qi_ne c ht hQ a.level
   have hq := qmod_ne c hQ a.level
   unfold rescaleOp at h
+  cases hsi : c.si
+  case true =>
+    rw [hsi, if_pos rfl] at h
+    simp only [ok1] at h; cases h
+    exact ⟨rfl, ha, fun h => absurd h (by decide), fun _ => rfl⟩
   rw [hsi] at h
   rw [if_neg Bool.false_ne_true] at h
   by_cases h1 : a.level = 0
@@ -432,7 +438,7 @@ theorem rescaleOp_sound (c : Cfg) [Fact c.t.Prime] (ht : c.t < 2 ^ 64) (hQ : ∀
     · rw [if_neg h2] at h
       simp only [ok1] at h; cases h
       simp only [msg]
-      refine ⟨scale_both _ _ _ hqi, ?_, ?_, ?_, trivial⟩
+      refine ⟨scale_both _ _ _ hqi, ?_, fun _ => ⟨?_, ?_, trivial⟩, fun h => absurd h (by decide)⟩
       · rw [mulmod_cast]; exact mul_ne_zero ha hqi
       · rw [mulmod_cast, inv_cast ht _ hq, ZMod.natCast_mod]
       · show a.level - 1 + 1 = a.level
